@@ -1597,6 +1597,10 @@ class Analysis:
                 l = rv["pl"]["l"]
             elif rv["r"] == "ref" and not rv["pl"]["p"]:
                 return ("local", rv["pl"]["l"])
+            elif rv["r"] == "ref" and rv.get("m") != "mut" and self.path_of(rv["pl"]["p"]) is not None \
+                    and not self.v.is_arg(rv["pl"]["l"]):
+                # `&(opt as Some).0`: the binding a match guard reads through (`Some(i) if i > 0`)
+                return ("place", rv["pl"]["l"], self.path_of(rv["pl"]["p"]))
             elif rv["r"] == "use" and rv["a"].get("o") in ("copy", "move") and not rv["a"]["p"]:
                 l = rv["a"]["l"]
             elif rv["r"] == "use" and rv["a"].get("o") in ("copy", "move") and len(rv["a"]["p"]) == 1 \
@@ -1626,6 +1630,11 @@ class Analysis:
             if self.rng[x] is None or x in self.escaped:
                 return None
             return st.alias.get(x, x)
+        if r[0] == "place":
+            k = ("pl", r[1], r[2])
+            if r[1] in self.escaped or k not in st.iv:
+                return None
+            return k
         proms = self.body.get("promoted") or []
         if r[1] < len(proms):
             vals = [o.get("v") for blk in proms[r[1]]["blocks"] for s_ in blk["stmts"] if s_["s"] == "assign"
@@ -1639,7 +1648,8 @@ class Analysis:
         if not all(a.get("o") in ("copy", "move") and not a["p"] for a in args):
             return None
         r, x = self._deref_local(args[0]["l"]), self._deref_local(args[1]["l"])
-        if r is None or x is None or x[0] != "local" or self.rng[x[1]] is None or x[1] in self.escaped:
+        if r is None or x is None or x[0] != "local" or self.rng[x[1]] is None or x[1] in self.escaped \
+                or r[0] == "place":
             return None
         inclusive = "RangeInclusive" in name
         lo = hi = None
